@@ -648,3 +648,11 @@ Proof. intro v. rewrite chunked_concat, set_of_ranges_spec. apply collapse_spec.
 
 Lemma expand_collapse tiny s : NS.Equal (set_of_ranges (collapse tiny s)) s.
 Proof. intro v. rewrite set_of_ranges_spec. apply collapse_spec. Qed.
+
+(* the case files evaluate [all3_fast]; it is the conjunction of the three predicates *)
+Lemma all3_fast_eq c : all3_fast c = all3 c.
+Proof.
+  unfold all3_fast, all3, holds, struct_is_text, P_C11.
+  destruct (agree c); [|reflexivity]. cbn [andb].
+  destruct (wf_C11 (fst (fst c))); reflexivity.
+Qed.
